@@ -144,10 +144,7 @@ func (n *AbsfsNFS) GetAttrCacheSize() int {
 // Close releases resources and stops any background processes
 func (n *AbsfsNFS) Close() error {
 	// Stop the server if Export() created one
-	if n.exportServer != nil {
-		n.exportServer.Stop()
-		n.exportServer = nil
-	}
+	n.stopExportServer()
 
 	// Stop worker pool
 	if n.workerPool != nil {
@@ -179,6 +176,17 @@ func (n *AbsfsNFS) Close() error {
 	}
 
 	return nil
+}
+
+// stopExportServer stops the server created by Export(), if any. Concurrent
+// Close/Unexport calls are serialized: none returns before the server is stopped.
+func (n *AbsfsNFS) stopExportServer() {
+	n.exportMu.Lock()
+	defer n.exportMu.Unlock()
+	if n.exportServer != nil {
+		n.exportServer.Stop()
+		n.exportServer = nil
+	}
 }
 
 // SetLogger sets or updates the structured logger for the NFS server
